@@ -4,8 +4,10 @@ import JominiModel.Proofs.BinTapeTotal
 C03 "fresh or previously used tape": the token vector with its stale capacity contents (`VecS`).
 Each vector operation of the parser acts on the view like the list operation of the model,
 independently of what lies beyond `len`; the only reads not bounded by `len` are the unchecked
-ones, and those are in range on every run (`C05_bintape_no_ub_panic`: the model's `ub` outcome,
-which stands for exactly such a read, never occurs).
+ones.  The whole parser is re-stated over the vector (`Model/BinTapeVec.lean`: `iterV`, `runV`, …,
+unchecked reads returning whatever the allocation holds) and simulated function by function:
+whenever the list model does not answer `ub`, the vector model answers the same (`run_simV`); and
+`ub` never occurs (`C05_bintape_no_ub_panic`).  Hence `parseInto_eq`.
 -/
 namespace Jomini.BinTape
 open Jomini
@@ -109,12 +111,916 @@ theorem view_setLen_le (v : VecS) (n : Nat) (h : n ≤ v.len) : (v.setLen n).vie
 
 end VecS
 
-/-- **Reuse**: parsing into a previously used tape gives the same result as parsing into a fresh
-one, whatever the old vector holds (its length, its tokens, the stale tokens behind its length). -/
-theorem parseInto_eq (opt : Bool) (prev : VecS) (data : Bytes) :
+open VecS
+
+/-! ## simulation: the loop over the vector vs the loop over its view -/
+
+
+theorem VecS.view_length (v : VecS) (hw : v.Wf) : v.view.length = v.len := by
+  unfold view Wf at *; simp; omega
+
+theorem VecS.view_pushAll : ∀ (t : Tape) (v : VecS), v.Wf → (v.pushAll t).view = v.view ++ t ∧ (v.pushAll t).Wf
+  | [], v, hw => by simp [pushAll, hw]
+  | x :: xs, v, hw => by
+    obtain ⟨h1, h2⟩ := view_push v x hw
+    obtain ⟨h3, h4⟩ := VecS.view_pushAll xs (v.push x) h2
+    simp only [pushAll]
+    exact ⟨by rw [h3, h1]; simp, h4⟩
+
+/-- result relations: whenever the list model does not answer `ub`, the vector model answers the
+same (its vector having the list as view, and being well-formed) -/
+def SimT (rv : Except Err VecS) (rl : Except Err Tape) : Prop :=
+  (∀ e, rl = .error e → e ≠ .ub → rv = .error e) ∧
+  (∀ T, rl = .ok T → ∃ v, rv = .ok v ∧ v.view = T ∧ v.Wf)
+
+def SimTE {α : Type} (rv : Except Err (VecS × α)) (rl : Except Err (Tape × α)) : Prop :=
+  (∀ e, rl = .error e → e ≠ .ub → rv = .error e) ∧
+  (∀ T a, rl = .ok (T, a) → ∃ v, rv = .ok (v, a) ∧ v.view = T ∧ v.Wf)
+
+def SimSt (rv : Except Err StV) (rl : Except Err St) : Prop :=
+  (∀ e, rl = .error e → e ≠ .ub → rv = .error e) ∧
+  (∀ s, rl = .ok s → ∃ sv, rv = .ok sv ∧ sv.toSt = s ∧ sv.vec.Wf)
+
+/-- the list helper appends what it produces on the empty tape -/
+def Appender (P : Tape → Bytes → Except Err (Tape × Bytes)) : Prop :=
+  ∀ T d, P T d = match P [] d with
+    | .error e => .error e
+    | .ok (t, r) => .ok (T ++ t, r)
+
+theorem appender_fixed (n : Nat) (mk : Bytes → BTok) : Appender (parseFixed n mk) := by
+  intro T d; unfold parseFixed; cases split? n d <;> simp
+theorem appender_u32 : Appender parseU32 := appender_fixed _ _
+theorem appender_u64 : Appender parseU64 := appender_fixed _ _
+theorem appender_i32 : Appender parseI32 := appender_fixed _ _
+theorem appender_i64 : Appender parseI64 := appender_fixed _ _
+theorem appender_f32 : Appender parseF32 := appender_fixed _ _
+theorem appender_f64 : Appender parseF64 := appender_fixed _ _
+theorem appender_bool : Appender parseBool := by
+  intro T d; unfold parseBool; cases readBool d <;> simp
+theorem appender_quoted : Appender parseQuoted := by
+  intro T d; unfold parseQuoted; cases readString d <;> simp
+theorem appender_unquoted : Appender parseUnquoted := by
+  intro T d; unfold parseUnquoted; cases readString d <;> simp
+theorem appender_rgb : Appender parseRgb := by
+  intro T d; unfold parseRgb; cases readRgb d <;> simp
+theorem appender_elem (k : EKind) : Appender (parseElem k) := by
+  cases k
+  · exact appender_fixed _ _
+  · exact appender_quoted
+  · exact appender_fixed _ _
+
+theorem parseV_sim {P : Tape → Bytes → Except Err (Tape × Bytes)} (hP : Appender P) (v : VecS) (hw : v.Wf) (d : Bytes) :
+    SimTE (parseV P v d) (P v.view d) := by
+  rw [hP v.view d]
+  unfold parseV
+  cases P [] d with
+  | error e => exact ⟨fun e' h _ => by simpa using h, fun T a h => by simp at h⟩
+  | ok p =>
+    obtain ⟨t, r⟩ := p
+    refine ⟨fun e h _ => by simp at h, fun T a h => ?_⟩
+    simp at h; obtain ⟨rfl, rfl⟩ := h
+    obtain ⟨h1, h2⟩ := VecS.view_pushAll t v hw
+    exact ⟨_, rfl, h1, h2⟩
+
+theorem scalarArm_simV {rv : Except Err (VecS × Bytes)} {rl : Except Err (Tape × Bytes)} (h : SimTE rv rl)
+    (parent : Nat) (state : PState) : SimSt (scalarArmV rv parent state) (scalarArm rl parent state) := by
+  unfold scalarArmV scalarArm
+  cases rl with
+  | error e =>
+    refine ⟨fun e' he hne => ?_, fun s hs => by simp at hs⟩
+    simp at he; subst he
+    rw [h.1 e rfl hne]
+  | ok p =>
+    obtain ⟨T, a⟩ := p
+    obtain ⟨v, hv, hview, hwf⟩ := h.2 T a rfl
+    rw [hv]
+    simp only
+    cases nextState state with
+    | none => exact ⟨fun e he hne => by simp at he; exact absurd he.symm hne, fun s hs => by simp at hs⟩
+    | some s' =>
+      refine ⟨fun e he _ => by simp at he, fun s hs => ?_⟩
+      simp at hs; subst hs
+      exact ⟨_, rfl, by simp [StV.toSt, hview], hwf⟩
+
+theorem getUnchecked_sim (v : VecS) (i : Nat) (hw : v.Wf) (x : BTok) (h : v.view[i]? = some x) :
+    v.getUnchecked i = some x := by
+  have hi : i < v.len := by
+    have := getElem?_lt_length h
+    rwa [VecS.view_length v hw] at this
+  rw [getUnchecked_view v i hi]; exact h
+
+theorem closeTo_simV (v : VecS) (hw : v.Wf) (g : Nat) : SimTE (closeToV v g) (closeTo v.view g) := by
+  unfold closeToV closeTo
+  cases hg : v.view[g]? with
+  | none => exact ⟨fun e he hne => by simp at he; exact absurd he.symm hne, fun T a h => by simp at h⟩
+  | some x =>
+    rw [getUnchecked_sim v g hw x hg]
+    cases x <;> exact ⟨fun e he _ => by simp at he, fun T a h => by simp at h; obtain ⟨rfl, rfl⟩ := h; exact ⟨v, rfl, rfl, hw⟩⟩
+
+theorem wf_setAt (v : VecS) (i : Nat) (x : BTok) (hw : v.Wf) : (v.setAt i x).Wf := by
+  unfold setAt Wf at *; split
+  · simpa using hw
+  · exact hw
+
+theorem simTE_err {α : Type} (rv : Except Err (VecS × α)) (e : Err) (h : e = .ub ∨ rv = .error e) :
+    SimTE rv (.error e : Except Err (Tape × α)) := by
+  refine ⟨fun e' he hne => ?_, fun T a h => by simp at h⟩
+  simp at he; subst he
+  rcases h with h | h
+  · exact absurd h hne
+  · exact h
+
+theorem pushEnd_simV (v : VecS) (hw : v.Wf) (p : Nat) : SimTE (pushEndV v p) (pushEnd v.view p) := by
+  unfold pushEndV pushEnd
+  rw [get?_view, VecS.view_length v hw]
+  have key : ∀ y g, SimTE (closeToV ((v.setAt p y).push (.end_ p)) g) (closeTo (v.view.set p y ++ [.end_ p]) g) := by
+    intro y g
+    have h1 := wf_setAt v p y hw
+    obtain ⟨h2, h3⟩ := view_push (v.setAt p y) (.end_ p) h1
+    have := closeTo_simV _ h3 g
+    rwa [h2, view_setAt] at this
+  cases hp : v.view[p]? with
+  | none => exact simTE_err _ _ (Or.inr rfl)
+  | some x =>
+    cases x <;> first | exact key _ _ | exact simTE_err _ _ (Or.inr rfl)
+
+def simT_err (rv : Except Err VecS) (e : Err) (h : e = .ub ∨ rv = .error e) : SimT rv (.error e) := by
+  refine ⟨fun e' he hne => ?_, fun T h => by simp at h⟩
+  simp at he; subst he
+  rcases h with h | h
+  · exact absurd h hne
+  · exact h
+
+theorem setParentToObject_simV (v : VecS) (hw : v.Wf) (p : Nat) :
+    SimT (setParentToObjectV v p) (setParentToObject v.view p) := by
+  unfold setParentToObjectV setParentToObject
+  cases hp : v.view[p]? with
+  | none => exact simT_err _ _ (Or.inl rfl)
+  | some x =>
+    rw [getUnchecked_sim v p hw x hp]
+    have hi : p < v.len := by
+      have := getElem?_lt_length hp
+      rwa [VecS.view_length v hw] at this
+    cases x <;> first | exact simT_err _ _ (Or.inl rfl) | skip
+    rename_i e
+    refine ⟨fun e' he _ => by simp at he, fun T h => ?_⟩
+    simp at h; subst h
+    refine ⟨_, rfl, ?_, ?_⟩
+    · have := view_setAt v p (.object e)
+      simp only [setAt, hi, if_true] at this
+      exact this
+    · unfold setAtU Wf at *; simpa using hw
+
+theorem pop_simV (v : VecS) (hw : v.Wf) :
+    (BinTape.pop? v.view = none → v.pop? = none) ∧
+    (∀ T x, BinTape.pop? v.view = some (T, x) → ∃ v1, v.pop? = some (v1, x) ∧ v1.view = T ∧ v1.Wf) := by
+  have h := view_pop v hw
+  constructor
+  · intro hn; rw [hn] at h
+    cases hp : v.pop? with
+    | none => rfl
+    | some q => rw [hp] at h; simp at h
+  · intro T x hs; rw [hs] at h
+    cases hp : v.pop? with
+    | none => rw [hp] at h; simp at h
+    | some q =>
+      obtain ⟨v1, y⟩ := q
+      rw [hp] at h; simp at h
+      obtain ⟨h1, h2⟩ := h
+      subst h2
+      refine ⟨v1, rfl, h1, ?_⟩
+      unfold VecS.pop? at hp
+      split at hp
+      · cases hp
+      · split at hp
+        · simp at hp; obtain ⟨rfl, _⟩ := hp; unfold Wf at *; simp; omega
+        · cases hp
+
+theorem mixedInsert1_simV (v : VecS) (hw : v.Wf) : SimT (mixedInsert1V v) (mixedInsert1 v.view) := by
+  unfold mixedInsert1V mixedInsert1
+  obtain ⟨hn, hs⟩ := pop_simV v hw
+  cases hp : BinTape.pop? v.view with
+  | none => rw [hn hp]; exact simT_err _ _ (Or.inr rfl)
+  | some q =>
+    obtain ⟨T, x⟩ := q
+    obtain ⟨v1, h1, h2, h3⟩ := hs T x hp
+    rw [h1]
+    refine ⟨fun e he _ => by simp at he, fun T' h => ?_⟩
+    simp at h; subst h
+    obtain ⟨a1, a2⟩ := view_push v1 .mixed h3
+    obtain ⟨b1, b2⟩ := view_push _ x a2
+    exact ⟨_, rfl, by rw [b1, a1, h2]; simp, b2⟩
+
+theorem mixedInsert2_simV (v : VecS) (hw : v.Wf) : SimT (mixedInsert2V v) (mixedInsert2 v.view) := by
+  unfold mixedInsert2V mixedInsert2
+  obtain ⟨hn, hs⟩ := pop_simV v hw
+  cases hp : BinTape.pop? v.view with
+  | none => rw [hn hp]; exact simT_err _ _ (Or.inr rfl)
+  | some q =>
+    obtain ⟨T, x⟩ := q
+    obtain ⟨v1, h1, h2, h3⟩ := hs T x hp
+    rw [h1]
+    simp only
+    obtain ⟨hn2, hs2⟩ := pop_simV v1 h3
+    rw [h2] at hn2 hs2
+    cases hp2 : BinTape.pop? T with
+    | none => rw [hn2 hp2]; exact simT_err _ _ (Or.inr rfl)
+    | some q2 =>
+      obtain ⟨T2, y⟩ := q2
+      obtain ⟨v2, g1, g2, g3⟩ := hs2 T2 y hp2
+      rw [g1]
+      refine ⟨fun e he _ => by simp at he, fun T' h => ?_⟩
+      simp at h; subst h
+      obtain ⟨a1, a2⟩ := view_push v2 .mixed g3
+      obtain ⟨b1, b2⟩ := view_push _ y a2
+      obtain ⟨c1, c2⟩ := view_push _ x b2
+      exact ⟨_, rfl, by rw [c1, b1, a1, g2]; simp, c2⟩
+
+theorem rawWrite_setLen (v : VecS) (n i : Nat) (x : BTok) : (v.setLen n).rawWrite i x = (v.rawWrite i x).setLen n := by
+  unfold rawWrite setLen; split <;> rfl
+
+theorem setLen_setLen (v : VecS) (n m : Nat) : (v.setLen n).setLen m = v.setLen m := rfl
+
+theorem push_eq (v : VecS) (x : BTok) : v.push x = (v.rawWrite v.len x).setLen (v.len + 1) := rfl
+
+/-- three raw writes behind the length and one `set_len` are three pushes -/
+theorem write3_eq (v : VecS) (a b c : BTok) :
+    (((v.rawWrite v.len a).rawWrite (v.len + 1) b).rawWrite (v.len + 2) c).setLen (v.len + 3)
+      = ((v.push a).push b).push c := by
+  have h : ∀ (b : List BTok) (n m i : Nat) (x : BTok),
+      (VecS.rawWrite ⟨b, n⟩ i x).buf = (VecS.rawWrite ⟨b, m⟩ i x).buf := by
+    intros; unfold rawWrite; split <;> rfl
+  simp only [push, setLen, rawWrite_len]
+  congr 1
+  rw [h _ (v.len + 1 + 1) ((v.rawWrite v.len a).rawWrite (v.len + 1) b).len]
+  congr 2
+  rw [h _ (v.len + 1) (v.rawWrite v.len a).len]
+
+/-- a raw write at `i ≤ len` followed by `set_len(i + 1)` truncates the view and appends -/
+theorem view_write_trunc (v : VecS) (i : Nat) (x : BTok) (hw : v.Wf) (hi : i ≤ v.len) :
+    ((v.rawWrite i x).setLen (i + 1)).view = v.view.take i ++ [x] ∧ ((v.rawWrite i x).setLen (i + 1)).Wf := by
+  have hw' : (v.setLen i).Wf := by unfold setLen Wf at *; simp; omega
+  have e : (v.rawWrite i x).setLen (i + 1) = (v.setLen i).push x := by
+    rw [push_eq, rawWrite_setLen]; rfl
+  rw [e]
+  obtain ⟨h1, h2⟩ := view_push (v.setLen i) x hw'
+  exact ⟨by rw [h1, view_setLen_le v i hi], h2⟩
+
+theorem setParentToObject_length {T T' : Tape} {p : Nat} (h : setParentToObject T p = .ok T') : T'.length = T.length := by
+  obtain ⟨e, _, rfl⟩ := setParentToObject_ok h; simp
+
+theorem equalArm_simV (v : VecS) (hw : v.Wf) (parent : Nat) (state : PState) (d : Bytes) :
+    SimSt (equalArmV v parent state d) (equalArm v.view parent state d) := by
+  have okSt : ∀ (sv : StV), sv.vec.Wf → SimSt (.ok sv) (.ok sv.toSt) := by
+    intro sv h
+    exact ⟨fun e he _ => by simp at he, fun s hs => by simp at hs; subst hs; exact ⟨sv, rfl, rfl, h⟩⟩
+  have errSt : ∀ (rv : Except Err StV) (e : Err), e = .ub ∨ rv = .error e → SimSt rv (.error e) := by
+    intro rv e h
+    refine ⟨fun e' he hne => ?_, fun s hs => by simp at hs⟩
+    simp at he; subst he
+    rcases h with h | h
+    · exact absurd h hne
+    · exact h
+  unfold equalArmV equalArm
+  cases state
+  case keyValueSeparator => exact okSt ⟨v, parent, .objectValue, d⟩ hw
+  case openSecond =>
+    simp only
+    have h := setParentToObject_simV v hw parent
+    cases hs : setParentToObject v.view parent with
+    | error e =>
+      by_cases hu : e = .ub
+      · exact errSt _ _ (Or.inl hu)
+      · rw [h.1 e hs hu]; exact errSt _ _ (Or.inr rfl)
+    | ok T =>
+      obtain ⟨v', hv, hview, hwf⟩ := h.2 T hs
+      rw [hv]
+      have := okSt ⟨v', parent, .objectValue, d⟩ hwf
+      simpa [StV.toSt, hview] using this
+  case arrayValueMixed =>
+    simp only
+    obtain ⟨h1, h2⟩ := view_push v .equal hw
+    have := okSt ⟨v.push .equal, parent, .arrayValueMixed, d⟩ h2
+    simpa [StV.toSt, h1] using this
+  case arrayValue =>
+    simp only
+    obtain ⟨hn, hs⟩ := pop_simV v hw
+    cases hp : BinTape.pop? v.view with
+    | none => exact errSt _ _ (Or.inl rfl)
+    | some q =>
+      obtain ⟨T1, last⟩ := q
+      obtain ⟨v1, h1, h2, h3⟩ := hs T1 last hp
+      rw [h1]
+      simp only [h2]
+      -- the shape of `last` decides identically on both sides
+      have body : SimSt
+          (if onlyEmpties T1 parent = true then
+            match setParentToObjectV v1 parent with
+            | .error e => .error e
+            | .ok v2 => .ok ⟨(v2.rawWrite (parent + 1) last).setLen (parent + 2), parent, .objectValue, d⟩
+          else .ok ⟨((((v1.rawWrite v1.len .mixed).rawWrite (v1.len + 1) last).rawWrite (v1.len + 2) .equal).setLen (v1.len + 3)),
+              parent, .arrayValueMixed, d⟩)
+          (if onlyEmpties T1 parent = true then
+            match setParentToObject T1 parent with
+            | .error e => .error e
+            | .ok t2 => .ok ⟨t2.take (parent + 1) ++ [last], parent, .objectValue, d⟩
+          else .ok ⟨T1 ++ [.mixed, last, .equal], parent, .arrayValueMixed, d⟩) := by
+        split
+        · rename_i hoe
+          have hsp := setParentToObject_simV v1 h3 parent
+          rw [h2] at hsp
+          cases hs2 : setParentToObject T1 parent with
+          | error e =>
+            by_cases hu : e = .ub
+            · exact errSt _ _ (Or.inl hu)
+            · rw [hsp.1 e hs2 hu]; exact errSt _ _ (Or.inr rfl)
+          | ok t2 =>
+            obtain ⟨v2, hv2, hview2, hwf2⟩ := hsp.2 t2 hs2
+            rw [hv2]
+            simp only
+            have hlen : parent + 1 ≤ v2.len := by
+              have hl := setParentToObject_length hs2
+              have := VecS.view_length v2 hwf2
+              rw [hview2, hl] at this
+              simp only [onlyEmpties, Bool.and_eq_true, decide_eq_true_eq] at hoe
+              have h4 := hoe.1
+              simp at h4
+              omega
+            obtain ⟨a1, a2⟩ := view_write_trunc v2 (parent + 1) last hwf2 hlen
+            have := okSt ⟨(v2.rawWrite (parent + 1) last).setLen (parent + 2), parent, .objectValue, d⟩ a2
+            simpa [StV.toSt, a1, hview2] using this
+        · rw [write3_eq]
+          obtain ⟨a1, a2⟩ := view_push v1 .mixed h3
+          obtain ⟨b1, b2⟩ := view_push _ last a2
+          obtain ⟨c1, c2⟩ := view_push _ .equal b2
+          have := okSt ⟨((v1.push .mixed).push last).push .equal, parent, .arrayValueMixed, d⟩ c2
+          simpa [StV.toSt, c1, b1, a1, h2] using this
+      cases last <;> first | exact errSt _ _ (Or.inr rfl) | exact body
+  all_goals exact errSt _ _ (Or.inr rfl)
+
+theorem simSt_ok (sv : StV) (h : sv.vec.Wf) : SimSt (.ok sv) (.ok sv.toSt) :=
+  ⟨fun e he _ => by simp at he, fun s hs => by simp at hs; subst hs; exact ⟨sv, rfl, rfl, h⟩⟩
+
+theorem simSt_err (rv : Except Err StV) (e : Err) (h : e = .ub ∨ rv = .error e) : SimSt rv (.error e) := by
+  refine ⟨fun e' he hne => ?_, fun s hs => by simp at hs⟩
+  simp at he; subst he
+  rcases h with h | h
+  · exact absurd h hne
+  · exact h
+
+/-- lift a tape-and-extra simulation through a continuation that builds the state -/
+theorem simSt_of_TE {α : Type} {rv : Except Err (VecS × α)} {rl : Except Err (Tape × α)} (h : SimTE rv rl)
+    (kv : VecS → α → StV) (kl : Tape → α → St) (hk : ∀ v a, (kv v a).toSt = kl v.view a ∧ (kv v a).vec = v) :
+    SimSt (match (generalizing := false) rv with | .error e => .error e | .ok (v, a) => .ok (kv v a))
+          (match (generalizing := false) rl with | .error e => .error e | .ok (T, a) => .ok (kl T a)) := by
+  cases rl with
+  | error e =>
+    by_cases hu : e = .ub
+    · exact simSt_err _ _ (Or.inl hu)
+    · rw [h.1 e rfl hu]; exact simSt_err _ _ (Or.inr rfl)
+  | ok p =>
+    obtain ⟨T, a⟩ := p
+    obtain ⟨v, hv, hview, hwf⟩ := h.2 T a rfl
+    rw [hv]
+    have := simSt_ok (kv v a) (by rw [(hk v a).2]; exact hwf)
+    simpa [(hk v a).1, hview] using this
+
+theorem openArm_simV (v : VecS) (hw : v.Wf) (parent : Nat) (state : PState) (d : Bytes) :
+    SimSt (openArmV v parent state d) (openArm v.view parent state d) := by
+  unfold openArmV openArm
+  split
+  · obtain ⟨h1, h2⟩ := view_push v (.array parent) hw
+    have := simSt_ok ⟨v.push (.array parent), v.len, .openFirst, d⟩ h2
+    simpa [StV.toSt, h1, VecS.view_length v hw] using this
+  · have hemp : (v.len = 0) ↔ (v.view.isEmpty = true) := by
+      rw [← VecS.view_length v hw]; cases v.view <;> simp
+    by_cases h0 : v.len = 0
+    · have : v.view.isEmpty = true := hemp.mp h0
+      simp only [h0, if_true, this]
+      exact simSt_err _ _ (Or.inr rfl)
+    · have : ¬ v.view.isEmpty = true := fun h => h0 (hemp.mpr h)
+      simp only [h0, if_false, this]
+      cases readId d with
+      | none => exact simSt_err _ _ (Or.inr rfl)
+      | some p =>
+        obtain ⟨x, nd⟩ := p
+        simp only
+        split
+        · exact simSt_ok ⟨v, parent, state, nd⟩ hw
+        · exact simSt_err _ _ (Or.inr rfl)
+
+theorem closeTail_simV (parent : Nat) (d : Bytes) {rv : Except Err VecS} {rl : Except Err Tape} (pre : SimT rv rl) :
+    SimSt (match (generalizing := false) rv with
+            | .error e => .error e
+            | .ok v1 => match pushEndV v1 parent with
+              | .error e => .error e
+              | .ok (v', parent', state') => .ok ⟨v', parent', state', d⟩)
+          (match (generalizing := false) rl with
+            | .error e => .error e
+            | .ok tape1 => match pushEnd tape1 parent with
+              | .error e => .error e
+              | .ok (tape', parent', state') => .ok ⟨tape', parent', state', d⟩) := by
+  cases rl with
+  | error e =>
+    by_cases hu : e = .ub
+    · exact simSt_err _ _ (Or.inl hu)
+    · rw [pre.1 e rfl hu]; exact simSt_err _ _ (Or.inr rfl)
+  | ok T =>
+    obtain ⟨v1, hv1, hview, hwf⟩ := pre.2 T rfl
+    rw [hv1]
+    simp only
+    have h := pushEnd_simV v1 hwf parent
+    rw [hview] at h
+    have h5 := simSt_of_TE h (fun v' (a : Nat × PState) => ⟨v', a.1, a.2, d⟩) (fun T' a => ⟨T', a.1, a.2, d⟩)
+      (fun _ _ => ⟨rfl, rfl⟩)
+    cases hpe : pushEndV v1 parent with
+    | error e1 =>
+      cases hpl : pushEnd T parent with
+      | error e2 => simpa [hpe, hpl] using h5
+      | ok q2 => obtain ⟨a2, b2, c2⟩ := q2; simpa [hpe, hpl] using h5
+    | ok q1 =>
+      obtain ⟨a1, b1, c1⟩ := q1
+      cases hpl : pushEnd T parent with
+      | error e2 => simpa [hpe, hpl] using h5
+      | ok q2 => obtain ⟨a2, b2, c2⟩ := q2; simpa [hpe, hpl] using h5
+
+theorem closeArm_simV (v : VecS) (hw : v.Wf) (parent : Nat) (state : PState) (d : Bytes) :
+    SimSt (closeArmV v parent state d) (closeArm v.view parent state d) := by
+  have okT : SimT (.ok v) (.ok v.view) :=
+    ⟨fun e he _ => by simp at he, fun T h => by simp at h; subst h; exact ⟨v, rfl, rfl, hw⟩⟩
+  unfold closeArmV closeArm
+  cases state
+  case keyValueSeparator => exact closeTail_simV parent d (mixedInsert1_simV v hw)
+  case objectValue => exact closeTail_simV parent d (simT_err _ _ (Or.inr rfl))
+  all_goals exact closeTail_simV parent d okT
+
+theorem simSt_bind_TE {α : Type} {rv : Except Err (VecS × α)} {rl : Except Err (Tape × α)} (h : SimTE rv rl)
+    (kv : VecS → α → Except Err StV) (kl : Tape → α → Except Err St)
+    (hk : ∀ v a, v.Wf → SimSt (kv v a) (kl v.view a)) :
+    SimSt (match (generalizing := false) rv with | .error e => .error e | .ok (v, a) => kv v a)
+          (match (generalizing := false) rl with | .error e => .error e | .ok (T, a) => kl T a) := by
+  cases rl with
+  | error e =>
+    by_cases hu : e = .ub
+    · exact simSt_err _ _ (Or.inl hu)
+    · rw [h.1 e rfl hu]; exact simSt_err _ _ (Or.inr rfl)
+  | ok p =>
+    obtain ⟨T, a⟩ := p
+    obtain ⟨v, hv, hview, hwf⟩ := h.2 T a rfl
+    rw [hv]
+    have := hk v a hwf
+    rw [hview] at this
+    exact this
+
+theorem i32Loop_simV : ∀ (fuel : Nat) (v : VecS), v.Wf → ∀ (parent : Nat) (nd : Bytes),
+    SimSt (i32LoopV fuel v parent nd) (i32Loop fuel v.view parent nd)
+  | 0, v, hw, parent, nd => by simp only [i32LoopV, i32Loop]; exact simSt_err _ _ (Or.inr rfl)
+  | fuel + 1, v, hw, parent, nd => by
+    simp only [i32LoopV, i32Loop]
+    cases readId nd with
+    | none => exact simSt_err _ _ (Or.inr rfl)
+    | some p =>
+      obtain ⟨x, nd2⟩ := p
+      simp only
+      split
+      · have h5 := simSt_bind_TE (parseV_sim appender_i32 v hw nd2)
+          (fun v' nd' => i32LoopV fuel v' parent nd') (fun T' nd' => i32Loop fuel T' parent nd')
+          (fun v' a hw' => i32Loop_simV fuel v' hw' parent a)
+        rcases hv : parseV parseI32 v nd2 with e1 | ⟨a1, b1⟩ <;> rcases hl : parseI32 v.view nd2 with e2 | ⟨a2, b2⟩ <;>
+          simpa [hv, hl] using h5
+      · split
+        · have h := pushEnd_simV v hw parent
+          have h5 := simSt_of_TE h (fun v' (a : Nat × PState) => ⟨v', a.1, a.2, nd2⟩) (fun T' a => ⟨T', a.1, a.2, nd2⟩)
+            (fun _ _ => ⟨rfl, rfl⟩)
+          cases hpe : pushEndV v parent with
+          | error e1 =>
+            cases hpl : pushEnd v.view parent with
+            | error e2 => simpa [hpe, hpl] using h5
+            | ok q2 => obtain ⟨a2, b2, c2⟩ := q2; simpa [hpe, hpl] using h5
+          | ok q1 =>
+            obtain ⟨a1, b1, c1⟩ := q1
+            cases hpl : pushEnd v.view parent with
+            | error e2 => simpa [hpe, hpl] using h5
+            | ok q2 => obtain ⟨a2, b2, c2⟩ := q2; simpa [hpe, hpl] using h5
+        · exact simSt_ok ⟨v, parent, .arrayValue, nd⟩ hw
+
+theorem tokenArm_simV (opt : Bool) (fuel : Nat) (v : VecS) (hw : v.Wf) (parent : Nat) (state : PState) (d : Bytes) (tok : Nat) :
+    SimSt (tokenArmV opt fuel v parent state d tok) (tokenArm opt fuel v.view parent state d tok) := by
+  have sc : ∀ P, Appender P → SimSt (scalarArmV (parseV P v d) parent state) (scalarArm (P v.view d) parent state) :=
+    fun P hP => scalarArm_simV (parseV_sim hP v hw d) parent state
+  unfold tokenArmV tokenArm
+  by_cases c1 : tok = L.u32
+  · rw [if_pos c1, if_pos c1]; exact sc _ appender_u32
+  rw [if_neg c1, if_neg c1]
+  by_cases c2 : tok = L.u64
+  · rw [if_pos c2, if_pos c2]; exact sc _ appender_u64
+  rw [if_neg c2, if_neg c2]
+  by_cases c3 : tok = L.i32
+  · rw [if_pos c3, if_pos c3]
+    have h := sc _ appender_i32
+    cases hl : scalarArm (parseI32 v.view d) parent state with
+    | error e =>
+      by_cases hu : e = .ub
+      · exact simSt_err _ _ (Or.inl hu)
+      · rw [h.1 e hl hu]; exact simSt_err _ _ (Or.inr rfl)
+    | ok s =>
+      obtain ⟨sv, hsv, hto, hwf⟩ := h.2 s hl
+      rw [hsv]
+      simp only
+      have hst : sv.state = s.state := by rw [← hto]; rfl
+      rw [hst]
+      split
+      · have := i32Loop_simV fuel sv.vec hwf sv.parent sv.data
+        rw [← hto]
+        exact this
+      · have := simSt_ok sv hwf
+        rwa [hto] at this
+  rw [if_neg c3, if_neg c3]
+  by_cases c4 : tok = L.bool
+  · rw [if_pos c4, if_pos c4]; exact sc _ appender_bool
+  rw [if_neg c4, if_neg c4]
+  by_cases c5 : tok = L.quoted
+  · rw [if_pos c5, if_pos c5]; exact sc _ appender_quoted
+  rw [if_neg c5, if_neg c5]
+  by_cases c6 : tok = L.unquoted
+  · rw [if_pos c6, if_pos c6]; exact sc _ appender_unquoted
+  rw [if_neg c6, if_neg c6]
+  by_cases c7 : tok = L.f32
+  · rw [if_pos c7, if_pos c7]; exact sc _ appender_f32
+  rw [if_neg c7, if_neg c7]
+  by_cases c8 : tok = L.f64
+  · rw [if_pos c8, if_pos c8]; exact sc _ appender_f64
+  rw [if_neg c8, if_neg c8]
+  by_cases c9 : tok = L.open_
+  · rw [if_pos c9, if_pos c9]; exact openArm_simV v hw parent state d
+  rw [if_neg c9, if_neg c9]
+  by_cases c10 : tok = L.close
+  · rw [if_pos c10, if_pos c10]; exact closeArm_simV v hw parent state d
+  rw [if_neg c10, if_neg c10]
+  by_cases c11 : tok = L.equal
+  · rw [if_pos c11, if_pos c11]; exact equalArm_simV v hw parent state d
+  rw [if_neg c11, if_neg c11]
+  by_cases c12 : tok = L.rgb ∧ state = .objectValue
+  · rw [if_pos c12, if_pos c12]
+    have h5 := simSt_of_TE (parseV_sim appender_rgb v hw d) (fun v' d' => ⟨v', parent, .key, d'⟩) (fun T' d' => ⟨T', parent, .key, d'⟩)
+      (fun _ _ => ⟨rfl, rfl⟩)
+    rcases hv : parseV parseRgb v d with e1 | ⟨a1, b1⟩ <;> rcases hl : parseRgb v.view d with e2 | ⟨a2, b2⟩ <;>
+      simpa [hv, hl] using h5
+  rw [if_neg c12, if_neg c12]
+  by_cases c13 : tok = L.i64
+  · rw [if_pos c13, if_pos c13]; exact sc _ appender_i64
+  rw [if_neg c13, if_neg c13]
+  refine scalarArm_simV ?_ parent state
+  obtain ⟨h1, h2⟩ := view_push v (.token tok) hw
+  exact ⟨fun e he _ => by simp at he, fun T a h => by simp at h; obtain ⟨rfl, rfl⟩ := h; exact ⟨_, rfl, h1, h2⟩⟩
+
+theorem dispatch_simV (opt : Bool) (fuel : Nat) (v : VecS) (hw : v.Wf) (parent : Nat) (state : PState) (d : Bytes) (tok : Nat) :
+    SimSt (dispatchV opt fuel v parent state d tok) (dispatch opt fuel v.view parent state d tok) := by
+  unfold dispatchV dispatch
+  split
+  · have h := mixedInsert2_simV v hw
+    cases hl : mixedInsert2 v.view with
+    | error e =>
+      by_cases hu : e = .ub
+      · exact simSt_err _ _ (Or.inl hu)
+      · rw [h.1 e hl hu]; exact simSt_err _ _ (Or.inr rfl)
+    | ok T =>
+      obtain ⟨v', hv, hview, hwf⟩ := h.2 T hl
+      rw [hv]
+      simp only
+      rw [← hview]
+      exact tokenArm_simV opt fuel v' hwf parent .arrayValueMixed d tok
+  · exact tokenArm_simV opt fuel v hw parent state d tok
+
+
+/-- fast-path outcomes: equal unless the list model answers `ub` -/
+def SimFP (rv : FPV) (rl : FP) : Prop :=
+  match rl with
+  | .err e => e = .ub ∨ rv = .err e
+  | .cont s => ∃ sv, rv = .cont sv ∧ sv.toSt = s ∧ sv.vec.Wf
+  | .fall T p s d t => ∃ v, rv = .fall v p s d t ∧ v.view = T ∧ v.Wf
+
+theorem simFP_withId (d : Bytes) {kv : Nat → Bytes → FPV} {kl : Nat → Bytes → FP}
+    (h : ∀ t rest, SimFP (kv t rest) (kl t rest)) : SimFP (FPV.withId d kv) (FP.withId d kl) := by
+  unfold FPV.withId FP.withId
+  cases readId d with
+  | none => exact Or.inr rfl
+  | some p => obtain ⟨t, rest⟩ := p; exact h t rest
+
+theorem simFP_withParse {rv : Except Err (VecS × Bytes)} {rl : Except Err (Tape × Bytes)} (hr : SimTE rv rl)
+    {kv : VecS → Bytes → FPV} {kl : Tape → Bytes → FP}
+    (h : ∀ v a, v.Wf → SimFP (kv v a) (kl v.view a)) : SimFP (FPV.withParse rv kv) (FP.withParse rl kl) := by
+  unfold FPV.withParse FP.withParse
+  cases rl with
+  | error e =>
+    by_cases hu : e = .ub
+    · exact Or.inl hu
+    · rw [hr.1 e rfl hu]; exact Or.inr rfl
+  | ok p =>
+    obtain ⟨T, a⟩ := p
+    obtain ⟨v, hv, hview, hwf⟩ := hr.2 T a rfl
+    rw [hv]
+    have := h v a hwf
+    rwa [hview] at this
+
+theorem simFP_fall (v : VecS) (hw : v.Wf) (p : Nat) (s : PState) (d : Bytes) (t : Nat) :
+    SimFP (.fall v p s d t) (.fall v.view p s d t) := ⟨v, rfl, rfl, hw⟩
+
+theorem simFP_cont (sv : StV) (hw : sv.vec.Wf) : SimFP (.cont sv) (.cont sv.toSt) := ⟨sv, rfl, rfl, hw⟩
+
+theorem wf_setAtU (v : VecS) (i : Nat) (x : BTok) (hw : v.Wf) : (v.setAtU i x).Wf := by
+  unfold setAtU Wf at *; simpa using hw
+
+theorem view_setAtU (v : VecS) (i : Nat) (x : BTok) (hi : i < v.len) : (v.setAtU i x).view = v.view.set i x := by
+  have := view_setAt v i x
+  simp only [setAt, hi, if_true] at this
+  exact this
+
+theorem arrLoop_simV (k : EKind) : ∀ (fuel : Nat) (v : VecS), v.Wf → ∀ (parent : Nat) (nd : Bytes),
+    SimFP (arrLoopV k fuel v parent nd) (arrLoop k fuel v.view parent nd)
+  | 0, v, hw, parent, nd => by simp only [arrLoopV, arrLoop]; exact Or.inr rfl
+  | fuel + 1, v, hw, parent, nd => by
+    simp only [arrLoopV, arrLoop]
+    cases readId nd with
+    | none => exact Or.inr rfl
+    | some p =>
+      obtain ⟨x, nd2⟩ := p
+      simp only
+      split
+      · have hr := parseV_sim (appender_elem k) v hw nd2
+        cases hl : parseElem k v.view nd2 with
+        | error e =>
+          by_cases hu : e = .ub
+          · exact Or.inl hu
+          · rw [hr.1 e hl hu]; exact Or.inr rfl
+        | ok q =>
+          obtain ⟨T, a⟩ := q
+          obtain ⟨v', hv, hview, hwf⟩ := hr.2 T a hl
+          rw [hv]
+          simp only
+          rw [← hview]
+          exact arrLoop_simV k fuel v' hwf parent a
+      · split
+        · cases hp : v.view[parent]? with
+          | none => exact Or.inl rfl
+          | some y =>
+            rw [getUnchecked_sim v parent hw y hp]
+            have hi : parent < v.len := by
+              have := getElem?_lt_length hp
+              rwa [VecS.view_length v hw] at this
+            cases y <;> first | exact Or.inl rfl | skip
+            rename_i grand
+            have h1 := wf_setAtU v parent (.array v.len) hw
+            obtain ⟨h2, h3⟩ := view_push (v.setAtU parent (.array v.len)) (.end_ parent) h1
+            refine ⟨_, rfl, ?_, h3⟩
+            simp only [StV.toSt, h2, view_setAtU v parent _ hi, VecS.view_length v hw]
+        · exact simFP_fall v hw parent .arrayValue nd2 x
+
+theorem arrayField_simV (k : EKind) (fuel : Nat) (v : VecS) (hw : v.Wf) (parent : Nat) (d4 : Bytes) :
+    SimFP (arrayFieldV k fuel v parent d4) (arrayField k fuel v.view parent d4) := by
+  unfold arrayFieldV arrayField
+  refine simFP_withParse (parseV_sim (appender_elem k) v hw d4) ?_
+  intro v1 a hw1
+  refine simFP_withId a ?_
+  intro t5 d5
+  split
+  · refine simFP_withParse (parseV_sim (appender_elem k) v1 hw1 d5) ?_
+    intro v2 nd hw2
+    exact arrLoop_simV k fuel v2 hw2 parent nd
+  · exact simFP_fall v1 hw1 parent .openSecond d5 t5
+
+theorem simFP_setParent (v : VecS) (hw : v.Wf) (ind : Nat) {kv : VecS → FPV} {kl : Tape → FP}
+    (h : ∀ v', v'.Wf → SimFP (kv v') (kl v'.view)) :
+    SimFP (match setParentToObjectV v ind with | .error e => .err e | .ok v3 => kv v3)
+          (match setParentToObject v.view ind with | .error e => .err e | .ok t3 => kl t3) := by
+  have hs := setParentToObject_simV v hw ind
+  cases hl : setParentToObject v.view ind with
+  | error e =>
+    by_cases hu : e = .ub
+    · exact Or.inl hu
+    · rw [hs.1 e hl hu]; exact Or.inr rfl
+  | ok T =>
+    obtain ⟨v', hv, hview, hwf⟩ := hs.2 T hl
+    rw [hv]
+    have := h v' hwf
+    rwa [hview] at this
+
+theorem tokenKeyFast_simV (fuel : Nat) (v : VecS) (hw : v.Wf) (parent : Nat) (d : Bytes) :
+    SimFP (tokenKeyFastV fuel v parent d) (tokenKeyFast fuel v.view parent d) := by
+  unfold tokenKeyFastV tokenKeyFast
+  refine simFP_withId d ?_
+  intro t2 d2
+  split
+  · refine simFP_withId d2 ?_
+    intro t3 d3
+    split
+    · refine simFP_withParse (parseV_sim appender_i32 v hw d3) ?_
+      intro v' a hw'; exact simFP_cont ⟨v', parent, .key, a⟩ hw'
+    split
+    · obtain ⟨h1, h2⟩ := view_push v (.array parent) hw
+      simp only [← VecS.view_length v hw]
+      rw [← h1]
+      simp only [VecS.view_length v hw]
+      refine simFP_withId d3 ?_
+      intro t4 d4
+      split
+      · exact arrayField_simV .i32 fuel _ h2 v.len d4
+      split
+      · exact arrayField_simV .quoted fuel _ h2 v.len d4
+      split
+      · exact arrayField_simV .f32 fuel _ h2 v.len d4
+      split
+      · obtain ⟨g1, g2⟩ := view_push (v.push (.array parent)) (.token t4) h2
+        rw [← g1]
+        refine simFP_withId d4 ?_
+        intro t5 d5
+        split
+        · refine simFP_setParent _ g2 v.len ?_
+          intro v3 hw3
+          refine simFP_withId d5 ?_
+          intro t6 d6
+          exact simFP_fall v3 hw3 v.len .objectValue d6 t6
+        · exact simFP_fall _ g2 v.len .openSecond d5 t5
+      · exact simFP_fall _ h2 v.len .openFirst d4 t4
+    split
+    · refine simFP_withParse (parseV_sim appender_quoted v hw d3) ?_
+      intro v' a hw'; exact simFP_cont ⟨v', parent, .key, a⟩ hw'
+    split
+    · refine simFP_withParse (parseV_sim appender_f32 v hw d3) ?_
+      intro v' a hw'; exact simFP_cont ⟨v', parent, .key, a⟩ hw'
+    · exact simFP_fall v hw parent .objectValue d3 t3
+  · exact simFP_fall v hw parent .keyValueSeparator d2 t2
+
+
+theorem quotedKeyFast_simV (v : VecS) (hw : v.Wf) (parent : Nat) (d : Bytes) :
+    SimFP (quotedKeyFastV v parent d) (quotedKeyFast v.view parent d) := by
+  unfold quotedKeyFastV quotedKeyFast
+  refine simFP_withParse (parseV_sim appender_quoted v hw d) ?_
+  intro v1 d2 hw1
+  refine simFP_withId d2 ?_
+  intro t2 d3
+  split
+  · refine simFP_withId d3 ?_
+    intro t3 d4
+    split
+    · obtain ⟨h1, h2⟩ := view_push v1 (.array parent) hw1
+      simp only [← VecS.view_length v1 hw1]
+      rw [← h1]
+      simp only [VecS.view_length v1 hw1]
+      refine simFP_withId d4 ?_
+      intro t e1
+      split
+      · obtain ⟨g1, g2⟩ := view_push (v1.push (.array parent)) (.token t) h2
+        rw [← g1]
+        refine simFP_withId e1 ?_
+        intro t' e2
+        split
+        · refine simFP_setParent _ g2 v1.len ?_
+          intro v4 hw4
+          refine simFP_withId e2 ?_
+          intro t'' e3
+          split
+          · refine simFP_withParse (parseV_sim appender_bool v4 hw4 e3) ?_
+            intro v5 a hw5; exact simFP_cont ⟨v5, v1.len, .key, a⟩ hw5
+          split
+          · refine simFP_withParse (parseV_sim appender_quoted v4 hw4 e3) ?_
+            intro v5 a hw5; exact simFP_cont ⟨v5, v1.len, .key, a⟩ hw5
+          · exact simFP_fall v4 hw4 v1.len .objectValue e3 t''
+        · exact simFP_fall _ g2 v1.len .openSecond e2 t'
+      · exact simFP_fall _ h2 v1.len .openFirst e1 t
+    · exact simFP_fall v1 hw1 parent .objectValue d4 t3
+  · exact simFP_fall v1 hw1 parent .keyValueSeparator d3 t2
+
+theorem i32KeyFast_simV (v : VecS) (hw : v.Wf) (parent : Nat) (d : Bytes) :
+    SimFP (i32KeyFastV v parent d) (i32KeyFast v.view parent d) := by
+  unfold i32KeyFastV i32KeyFast
+  refine simFP_withParse (parseV_sim appender_i32 v hw d) ?_
+  intro v1 d2 hw1
+  refine simFP_withId d2 ?_
+  intro t2 d3
+  split
+  · refine simFP_withId d3 ?_
+    intro t3 d4
+    split
+    · refine simFP_withParse (parseV_sim appender_i32 v1 hw1 d4) ?_
+      intro v2 a hw2; exact simFP_cont ⟨v2, parent, .key, a⟩ hw2
+    · exact simFP_fall v1 hw1 parent .objectValue d4 t3
+  · exact simFP_fall v1 hw1 parent .keyValueSeparator d3 t2
+
+theorem keyFast_simV (fuel : Nat) (v : VecS) (hw : v.Wf) (parent : Nat) (d : Bytes) (tok : Nat) :
+    SimFP (keyFastV fuel v parent d tok) (keyFast fuel v.view parent d tok) := by
+  unfold keyFastV keyFast
+  split
+  · split
+    · obtain ⟨h1, h2⟩ := view_push v (.token tok) hw
+      rw [← h1]
+      exact tokenKeyFast_simV fuel _ h2 parent d
+    · exact simFP_fall v hw parent .key d tok
+  split
+  · have h := pushEnd_simV v hw parent
+    cases hl : pushEnd v.view parent with
+    | error e =>
+      by_cases hu : e = .ub
+      · exact Or.inl hu
+      · rw [h.1 e hl hu]; exact Or.inr rfl
+    | ok q =>
+      obtain ⟨T, a, b⟩ := q
+      obtain ⟨v', hv, hview, hwf⟩ := h.2 T (a, b) hl
+      rw [hv]
+      exact ⟨⟨v', a, b, d⟩, rfl, by simp [StV.toSt, hview], hwf⟩
+  split
+  · exact quotedKeyFast_simV v hw parent d
+  split
+  · exact i32KeyFast_simV v hw parent d
+  · exact simFP_fall v hw parent .key d tok
+
+/-- one iteration -/
+def SimIter (rv : IterV) (rl : Iter) : Prop :=
+  match rl with
+  | .done => rv = .done
+  | .err e => e = .ub ∨ rv = .err e
+  | .next s => ∃ sv, rv = .next sv ∧ sv.toSt = s ∧ sv.vec.Wf
+
+theorem simIter_ofExcept {rv : Except Err StV} {rl : Except Err St} (h : SimSt rv rl) :
+    SimIter (IterV.ofExcept rv) (Iter.ofExcept rl) := by
+  cases rl with
+  | error e =>
+    by_cases hu : e = .ub
+    · exact Or.inl hu
+    · rw [h.1 e rfl hu]; exact Or.inr rfl
+  | ok s =>
+    obtain ⟨sv, hsv, hto, hwf⟩ := h.2 s rfl
+    rw [hsv]; exact ⟨sv, rfl, hto, hwf⟩
+
+theorem iter_simV (opt : Bool) (fuel : Nat) (vec : VecS) (hw : vec.Wf) (parent : Nat) (state : PState) (data : Bytes) :
+    SimIter (iterV opt fuel ⟨vec, parent, state, data⟩) (iter opt fuel ⟨vec.view, parent, state, data⟩) := by
+  unfold iterV iter
+  dsimp only
+  cases readId data with
+  | none => rfl
+  | some p =>
+    obtain ⟨tok, d⟩ := p
+    dsimp only
+    by_cases hc : opt = true ∧ state = .key
+    · rw [if_pos hc, if_pos hc]
+      have h := keyFast_simV fuel vec hw parent d tok
+      cases hl : keyFast fuel vec.view parent d tok with
+      | cont s =>
+        rw [hl] at h
+        obtain ⟨sv', hv, hto, hwf⟩ := h
+        rw [hv]; exact ⟨sv', rfl, hto, hwf⟩
+      | err e =>
+        rw [hl] at h
+        rcases h with h | h
+        · exact Or.inl h
+        · rw [h]; exact Or.inr rfl
+      | fall T p s d' tok' =>
+        rw [hl] at h
+        obtain ⟨v', hv, hview, hwf⟩ := h
+        rw [hv]
+        dsimp only
+        rw [← hview]
+        exact simIter_ofExcept (dispatch_simV opt fuel v' hwf p s d' tok')
+    · rw [if_neg hc, if_neg hc]
+      exact simIter_ofExcept (dispatch_simV opt fuel vec hw parent state d tok)
+
+/-- the loop over the vector agrees with the loop over its view, unless the latter answers `ub` -/
+theorem run_simV (opt : Bool) (fuel : Nat) : ∀ (n : Nat) (sv : StV), sv.vec.Wf →
+    run opt fuel n sv.toSt ≠ .error .ub → runV opt fuel n sv = run opt fuel n sv.toSt
+  | 0, sv, _, _ => rfl
+  | n + 1, sv, hw, hne => by
+    have h := iter_simV opt fuel sv.vec hw sv.parent sv.state sv.data
+    change SimIter (iterV opt fuel sv) (iter opt fuel sv.toSt) at h
+    simp only [run, runV] at hne ⊢
+    cases hl : iter opt fuel sv.toSt with
+    | done => rw [hl] at h; rw [h]
+    | err e =>
+      rw [hl] at h hne
+      rcases h with h | h
+      · subst h; exact absurd rfl hne
+      · rw [h]
+    | next s =>
+      rw [hl] at h hne
+      obtain ⟨sv', hv, hto, hwf⟩ := h
+      rw [hv]
+      simp only
+      rw [← hto] at hne ⊢
+      exact run_simV opt fuel n sv' hwf hne
+
+/-- **Reuse, through the loop.**  Parsing into a previously used vector — the loop running on the
+vector itself, its unchecked reads seeing whatever the allocation holds — gives the result of a fresh
+tape, whatever the old vector holds. -/
+theorem parseInto_eq (opt : Bool) (prev : VecS) (hw : prev.Wf) (data : Bytes) :
     parseInto opt prev data = parse opt data := by
-  unfold parseInto parse init
+  unfold parseInto parse
   have h1 : (prev.clear).Wf := by unfold VecS.clear VecS.Wf; simp
-  rw [VecS.view_rawWrite_beyond _ 0 .equal h1 (by simp [VecS.clear]), VecS.view_clear]
+  have h2 := wf_rawWrite prev.clear 0 .equal h1
+  have hv : ((prev.clear).rawWrite 0 .equal).view = [] := by
+    rw [view_rawWrite_beyond _ 0 .equal h1 (by simp [VecS.clear]), view_clear]
+  have := run_simV opt (data.length + 1) (data.length + 1) ⟨(prev.clear).rawWrite 0 .equal, 0, .key, data⟩ h2
+  simp only [StV.toSt, hv] at this
+  exact this (by
+    have := (C05_bintape_no_ub_panic opt data).1
+    simpa [parse, init] using this)
 
 end Jomini.BinTape
